@@ -3,7 +3,7 @@ from .. import terms as T
 from ..lib import summarise, heap_writes, V, A, normal, raising, cond_str, no_inline, writers_of_attr
 from ..symex import Valuation, default_policy
 from ..terms import fmt, ZERO, num
-from .sizers import sizing_paths, EQUITY, call_is, loop_asset_weight, is_empty_weights_path
+from .sizers import sizing_paths, EQUITY, call_is, loop_asset_weight, is_empty_weights_path, require_fresh_target, is_nan_test_of
 
 CN = 'LongShortLeveragedOrderSizer'
 
@@ -68,6 +68,7 @@ def check(ctx):
         p, lp = s['path'], s['loop']
         asset, w, wsrc = loop_asset_weight(lp)
         alloc = T.t_mul(EQUITY, w)
+        require_fresh_target(ctx, 'C11.S2', s, CN, 'C11.S2|fresh-target')
         kinds = {}
         for b in s['bodies']:
             bp = b['path']
@@ -120,7 +121,7 @@ def check(ctx):
             bp = b['path']
             nan = None
             for c, v, _ in bp.conds:
-                if call_is(c, 'ISNAN') and b['price'] and c[2] == (b['price'][0].result,):
+                if b['price'] and is_nan_test_of(c, b['price'][0].result):
                     nan = v
             if bp.outcome == 'raise':
                 seen_raise = seen_raise or (nan is True and bp.state.exc[1] == 'ValueError')
@@ -140,5 +141,7 @@ def check(ctx):
     ctx.sub(c05.s4_fee_models)
     ctx.sub(c08.sizer_selection)       # the sizer is built with the caller's leverage, unmodified
     ctx.sub(c06.converter)             # an unavailable price stays NaN (no back-fill), so it can be rejected
+    ctx.sub(c06.accessors)             # ... and "no bar at or before dt" is answered NaN by the data source (not the last bar's price)
+    ctx.sub(c06.handler)               # ... which the data handler hands to the sizer unchanged
     ws = [w for w in writers_of_attr(ctx.M, 'gross_leverage', owner=CN) if w.fn.cls is not None and w.fn.cls.name == CN]
     ctx.require(all(w.fn.name == '__init__' for w in ws) and ws, 'C11.S3', 'the leverage is set only by the constructor', ws[0].where if ws else None, key='C11.S3|writer')
